@@ -4,14 +4,20 @@ pub use methods::dispatch as log;
 
 #[dispatch]
 mod methods {
-    use crate::CelValue;
+    use crate::{CelError, CelResult, CelValue};
 
-    fn log(n: i64) -> i64 {
-        n.ilog10() as i64
+    fn log(n: i64) -> CelResult<i64> {
+        match n.checked_ilog10() {
+            Some(res) => Ok(res as i64),
+            None => Err(CelError::value("log() is only defined for positive numbers")),
+        }
     }
 
-    fn log(n: u64) -> u64 {
-        n.ilog10() as u64
+    fn log(n: u64) -> CelResult<u64> {
+        match n.checked_ilog10() {
+            Some(res) => Ok(res as u64),
+            None => Err(CelError::value("log() is only defined for positive numbers")),
+        }
     }
 
     fn log(n: f64) -> f64 {
